@@ -61,6 +61,21 @@ def gen(rng, tier, no, wide=False):
         for k in range(rng.choice([130, 140, 270])):
             ev.append({"ph": "X", "cat": "cpu_op", "name": f"aten::vocab_r{big}_{k}", "pid": host["pid"], "tid": host["tid"],
                        "ts": t0 + 3 * k, "dur": 2})
+    # GPU user annotations (record_function ranges as Kineto projects them onto a stream): nested ranges around the
+    # kernels of one stream, two of them with the same span, so that which annotation a kernel is attributed to rests on
+    # a tie (get_gpu_kernels_with_user_annotations / get_gpu_user_annotation_breakdown are part of the battery)
+    if rng.random() < 0.5:
+        for r in sorted(case["ranks"]):
+            ev = case["ranks"][r]
+            ks = [e for e in ev if e.get("cat") == "kernel" and isinstance((e.get("args") or {}).get("stream"), int)]
+            if not ks:
+                continue
+            k0 = rng.choice(ks)
+            same = [e for e in ks if e["pid"] == k0["pid"] and e["tid"] == k0["tid"]]
+            a, b = min(e["ts"] for e in same), max(e["ts"] + e["dur"] for e in same)
+            for nm, lo, hi in [("phase_outer", a - 2, b + 2), ("phase_inner", a - 2, b + 2), ("phase_leaf", a, a + max(1, (b - a) // 2))]:
+                ev.insert(rng.randint(1, len(ev)), {"ph": "X", "cat": "gpu_user_annotation", "name": nm + rng.choice(["", f"_r{r}"]), "pid": k0["pid"], "tid": k0["tid"],
+                                                     "ts": lo, "dur": hi - lo, "args": {"External id": 900 + r}})
     # vocabulary inclusion: a rank other than the first one whose vocabulary contains every symbol of all the others (its
     # local table is then as long as the global one, numbered differently)
     if n >= 2 and rng.random() < 0.25:
@@ -89,6 +104,7 @@ def _run_ops(ops):
     from hta.common.trace_symbol_table import TraceSymbolTable
     t = TraceSymbolTable()
     outs = []
+    views: List[str] = []
     for o in ops:
         if o[0] == "add":
             t.add_symbols(list(o[1]))
@@ -100,8 +116,42 @@ def _run_ops(ops):
             outs.append(tab[o[1]] if o[1] < len(tab) else None)
         else:
             outs.append(list(t.get_sym_table()))
+            views.extend(_views(t))
     ok = list(t.get_sym_table()) == [s for s, _ in sorted(t.get_sym_id_map().items(), key=lambda kv: kv[1])]
-    return outs, ok
+    return outs, ok and not views, views
+
+
+def _views(t) -> List[str]:
+    """The other ways the class hands its content out (cached series, clone, combination, data-frame encode/decode),
+    each of which must agree with the list/dict pair at the moment it is asked."""
+    import pandas as pd
+    from hta.common.trace_symbol_table import TraceSymbolTable
+    bad = []
+    tab, ids = list(t.get_sym_table()), dict(t.get_sym_id_map())
+    if list(t.get_sym_table_series()) != tab:
+        bad.append("get_sym_table_series is stale")
+    if {k: int(v) for k, v in t.get_sym_index_series().to_dict().items()} != ids:
+        bad.append("get_sym_index_series is stale")
+    if tab and {int(k): v for k, v in t.get_symbol_names(list(range(len(tab)))).items()} != dict(enumerate(tab)):
+        bad.append("get_symbol_names differs from the table")
+    cl = TraceSymbolTable.clone(t)
+    if list(cl.get_sym_table()) != tab or dict(cl.get_sym_id_map()) != ids:
+        bad.append("clone differs")
+    cl.add_symbols(["__only_in_clone__"])
+    if list(t.get_sym_table()) != tab:
+        bad.append("adding to a clone changed the original")
+    co = TraceSymbolTable.combine_symbol_tables([t, cl])
+    if list(co.get_sym_table())[: len(tab)] != tab:
+        bad.append("combine_symbol_tables renumbered the first table")
+    if len(tab) >= 2:
+        df = pd.DataFrame({"name": tab, "cat": list(reversed(tab))})
+        t.encode_df(df)
+        if list(df["name"]) != list(range(len(tab))):
+            bad.append("encode_df ids differ from the table")
+        t.decode_df(df, create_new_columns=True)
+        if list(df.get("s_name", [])) != tab or list(df.get("s_cat", [])) != list(reversed(tab)):
+            bad.append("decode_df(encode_df(x)) != x")
+    return bad
 
 
 def _probe(case, seed: int, mp: bool) -> Dict[str, str]:
@@ -122,8 +172,8 @@ def _probe(case, seed: int, mp: bool) -> Dict[str, str]:
 
 def observe(case):
     p = case["params"]
-    outs, consistent = _run_ops(p["ops"])
-    canon: Dict[str, Any] = {"ops": outs, "list_dict_consistent": consistent}
+    outs, consistent, views = _run_ops(p["ops"])
+    canon: Dict[str, Any] = {"ops": outs, "list_dict_consistent": consistent, "views": views}
     files = htaio.write_case(case)
     try:
         from hta.common import trace as T
@@ -218,7 +268,7 @@ def oracle(case, obs) -> List[str]:
     c = obs["canon"]
     out = []
     if not c["list_dict_consistent"]:
-        out.append("sym_table and sym_index disagree after the op sequence")
+        out.append("sym_table and sym_index disagree after the op sequence" + (": " + "; ".join(c.get("views") or []) if c.get("views") else ""))
     if not c["bijection"]:
         out.append("global symbol table is not a bijection")
     # decoded rows equal the file's strings
